@@ -4,7 +4,7 @@ SPEC = {
     'technique': 'exhaustive enumeration of a catalogue of ill-formed configurations, each issued after every well-formed operation history up to a depth bound, with a before/after comparison of image and behaviour on the real library',
     'claim': 'each of 72 configuration mistakes (non-function target, wrong parameter/result counts and sizes for functions, methods, unexported functions and interface methods, too few condition arguments or return values (down to an empty list), ill-formed As(..) stubs for interface methods, wrong-sized return values, unknown method/symbol names (also tails of an import path), non-pointer / non-interface handed to Interface, wrong origin placeholder, variable mock misuse) is rejected by a panic or error when issued on the pristine state and after every well-formed history of depth <= 2 (quick) / <= 3 (thorough); error values have a terminating, CauseBy-consistent cause chain; the executable image, all targets (per the model of the prefix) and never-mocked functions are unchanged by the rejected call',
     'note': 'a zero-argument Return() and a zero-argument When() are documented forms and not classed as mistakes; the catalogue is fixed (70 single-call entries plus 2 mistakes chained onto a well-formed stub of a target no history touches, whose configuration must stay in force; chains such as When(1).Return(bad) are not used because their first call is a valid configuration on its own)',
-    'jobs': [{'bin': 'c13', 'shards': 16, 'case_timeout': 60, 'single_timeout': 120, 'hang_is_violation': True, 'max_restarts': 1, 'maxcases': 12000}],
+    'jobs': [{'bin': 'c13', 'shards': 16, 'case_timeout': 180, 'single_timeout': 300, 'hang_is_violation': True, 'max_restarts': 1, 'maxcases': 12000}],
     'rule': 'cases = prefixes (all well-formed histories over 15 operations up to the depth, plus the empty one) x mistakes; distinct_nontrivial = cases with a non-empty prefix; evaluations = judged observations (rejection, cause chain, image, untouched functions, 5 probes per target).',
     'assumptions': [],
 }
